@@ -108,9 +108,13 @@ type rec struct {
 	placeholder string
 	data        []byte
 	err         string
+	armed       bool // the transport carried a read deadline when this handler started
 }
 
 var Recs []rec
+
+// curConn is the scripted transport of the execution under way.
+var curConn *hm.SConn
 
 type AddrRec struct {
 	ID string `json:"id"`
@@ -124,6 +128,7 @@ func (h *AddrRec) Handle(cx *layer4.Connection, _ layer4.Handler) error {
 	repl := cx.Context.Value(layer4.ReplacerCtxKey).(*caddy.Replacer)
 	r := rec{id: h.ID, remote: cx.RemoteAddr().String(), local: cx.LocalAddr().String(),
 		placeholder: repl.ReplaceAll("{l4.conn.remote_addr}|{l4.conn.local_addr}", "")}
+	r.armed = curConn != nil && !curConn.Deadline.IsZero()
 	data, err := hm.ReadAll(cx, 1500, 0)
 	r.data = data
 	if err != nil {
@@ -143,6 +148,10 @@ type Scn struct {
 	Allow   []string `json:"allow"`
 	Peer    string   `json:"peer"` // socket peer address "ip:port"
 	Need    int      `json:"need"` // an extra matcher in front needs this many bytes (forces prefetching past the header)
+	// Timeout: the handler's header timeout in ms (0: option absent).  Direct: the recording
+	// handler follows the PROXY handler in the same route instead of sitting in a subroute
+	Timeout int  `json:"timeout,omitempty"`
+	Direct  bool `json:"direct,omitempty"`
 }
 
 func payload(n int) []byte {
@@ -192,6 +201,9 @@ func build(sc *Scn) *built {
 	if len(sc.Allow) > 0 {
 		pp["allow"] = sc.Allow
 	}
+	if sc.Timeout > 0 {
+		pp["timeout"] = fmt.Sprintf("%dms", sc.Timeout)
+	}
 	first := []map[string]any{{"proxy_protocol": map[string]any{}}}
 	if sc.Need > 0 {
 		first = []map[string]any{{"proxy_protocol": map[string]any{}, "h_need": map[string]any{"k": sc.Need, "mode": "peek"}}}
@@ -209,6 +221,11 @@ func build(sc *Scn) *built {
 	}
 	routes := []map[string]any{
 		{"match": first, "handle": []map[string]any{pp, {"handler": "subroute", "routes": inner}}},
+	}
+	if sc.Direct {
+		routes = []map[string]any{
+			{"match": first, "handle": []map[string]any{pp, {"handler": "h_addr", "id": "declared-source-route"}}},
+		}
 	}
 	var rl layer4.RouteList
 	if err := json.Unmarshal(hm.J(routes), &rl); err != nil {
@@ -236,6 +253,7 @@ func execute(x *explore.Exec, sc *Scn, b *built) {
 		conn.Menu = hm.StdMenu(1, len(hdr)-1, len(hdr), len(hdr)+1, 2047, 2048, 4096, 4097)
 	}
 	Recs = nil
+	curConn = conn
 	fellThrough := false
 	h := b.routes.Compile(nop, time.Second, layer4.HandlerFunc(func(*layer4.Connection) error { fellThrough = true; return nil }))
 	cx := layer4.WrapConnection(conn, make([]byte, 0, 2048), nop)
@@ -263,6 +281,9 @@ func execute(x *explore.Exec, sc *Scn, b *built) {
 		return
 	}
 	r := Recs[0]
+	if r.armed {
+		x.Fail("deadline-armed-after-header", "the handler behind the PROXY handler started with a read deadline (%v) still armed on the transport: a client that pauses for longer than the header timeout loses the rest of its stream; %s", conn.Deadline, desc())
+	}
 	sockRemote, sockLocal := conn.Remote.String(), conn.Local.String()
 	if allowed(sc) {
 		if string(r.data) != string(P) {
@@ -365,6 +386,15 @@ func scenarios(tier string, yield func(any) bool) {
 							return
 						}
 					}
+					// with a header timeout configured, followed by a subroute or directly by the
+					// consuming handler
+					if pl == 5 && len(al) <= 1 {
+						for _, direct := range []bool{false, true} {
+							if !yield(&Scn{H: h, Payload: pl, Allow: al, Peer: peer, Timeout: 500, Direct: direct}) {
+								return
+							}
+						}
+					}
 				}
 			}
 		}
@@ -395,7 +425,7 @@ func main() {
 	runner.Main(&runner.Harness{
 		ID:          "C12",
 		Level:       "model_checking",
-		Rule:        "PROXY headers from an independent encoder (v1 TCP4/TCP6/UNKNOWN; v2 PROXY/LOCAL x TCP4/UDP4/TCP6/UDP6/UNSPEC, TLV blocks of 0/1/255 bytes; boundary addresses and ports) x payloads {0,1,5, chunk-hdr+-1, 4096-hdr+-1, 6000 bytes} x allow lists {none, contains peer, excludes peer, overlapping prefixes, nested subnets sharing their network address in both orders, IPv6} x IPv4/IPv6 peer x optional matcher forcing >4096 prefetched bytes; every split point for streams <=22 bytes, read deviations <=3 up to 40 bytes and <=2 (3 thorough) from a boundary menu beyond; real matcher + handler in a real route list followed by a remote_ip matcher for the declared source",
+		Rule:        "PROXY headers from an independent encoder (v1 TCP4/TCP6/UNKNOWN; v2 PROXY/LOCAL x TCP4/UDP4/TCP6/UDP6/UNSPEC, TLV blocks of 0/1/255 bytes; boundary addresses and ports) x payloads {0,1,5, chunk-hdr+-1, 4096-hdr+-1, 6000 bytes} x allow lists {none, contains peer, excludes peer, overlapping prefixes, nested subnets sharing their network address in both orders, IPv6} x IPv4/IPv6 peer x optional matcher forcing >4096 prefetched bytes; every split point for streams <=22 bytes, read deviations <=3 up to 40 bytes and <=2 (3 thorough) from a boundary menu beyond; real matcher + handler in a real route list followed by a remote_ip matcher for the declared source; with a 500 ms header timeout, followed by a subroute or directly by the consuming handler, which must start with no read deadline armed on the transport",
 		Assumptions: []string{"the send side (proxy handler writing a header to upstreams) and the sender->receiver composition are checked by the second part of this check"},
 		Scenarios:   scenarios,
 		Run: func(tier string, scAny any, rep *runner.Report) {
